@@ -206,6 +206,19 @@ CHECKS = {
                   "lambda = passed lambda and Supported => recovered",
         note="TLC enumerates and judges; the tokenizer-driven recovery algorithm itself is exercised, not modelled "
              "(DESIGN.md 8)"),
+    "C01": dict(
+        text="End to end: TLC enumerates user-style fluent chains (method-form operators; method calls with defaults and "
+             "keyword arguments on model classes; arithmetic, comparisons, conditionals, tuple projection; nested Select / "
+             "Where / SelectMany / First / Count / Sum). Each chain is (a) executed directly by CPython on the model "
+             "datasets exported by TLC and (b) built with the real operators (lambdas as str / ast / real callables in "
+             "generated modules, typed and untyped root, optional result terminal) and executed with value(). TLC "
+             "(TracePass.JudgeE2E) decides that the AST the executor received evaluates (Sem.Eval) to what CPython "
+             "computed on every dataset, and again after the three backend passes; Sem itself is cross-checked against "
+             "CPython on every chain (disagreement = machinery failure, never an alarm). The structural part (each "
+             "operator wraps its parent) is validated on all histories by TraceStreams (clause Wrap).",
+        ref="DESIGN.md 6 (C01), 4.4",
+        technique="TLC-generated chains; differential oracle CPython-direct vs TLA+ denotational semantics of the AST "
+                  "received by the executor (and after backend passes); TLC trace validation"),
 }
 
 ORDER = ["C%02d" % i for i in range(1, 21)]
